@@ -1,0 +1,78 @@
+//go:build verif
+
+package icmp
+
+// Machine-checked contracts for /verif (govc). Comment-only, compiled only
+// with -tags verif; changes no behaviour.
+
+// ---- C03 (responder, ICMP session) ----
+//
+// performKeyExchange: one fresh pair; secret = ECDH(own private, initiator's public) with nil error; the
+// key is derived for (request id of the OPEN, initiator public, own public, responder) and becomes the
+// session's key; the public key of the same pair is returned for the ACK.
+//
+// HandleICMPOpen: the session is registered (accepted) only with a session key, and the ACK carries the
+// request id of the OPEN and the public key returned by performKeyExchange.
+
+//@ func (*Session).SetSessionKey
+//@ prop C03
+//@ modifies s.SessionKey
+//@ ensures s.SessionKey == key
+
+//@ func (*Handler).performKeyExchange
+//@ prop C03
+//@ modifies *
+//@ after call crypto.GenerateEphemeralKeypair let c03priv = $ret0
+//@ after call crypto.GenerateEphemeralKeypair let c03pub = $ret1
+//@ after call crypto.GenerateEphemeralKeypair let c03genErr = $ret2
+//@ at call crypto.ComputeECDH assert c03genErr == nil && c03pub == pubOf(c03priv)
+//@ at call crypto.ComputeECDH assert $0 == c03priv && $1 == remoteEphemeralPub
+//@ after call crypto.ComputeECDH let c03secret = $ret0
+//@ after call crypto.ComputeECDH let c03dhErr = $ret1
+//@ at call crypto.DeriveSessionKey assert c03dhErr == nil && $0 == c03secret && c03secret == dh(c03priv, remoteEphemeralPub) && c03secret != zeros()
+//@ at call crypto.DeriveSessionKey assert $1 == old(open.RequestID) && $2 == remoteEphemeralPub && $3 == c03pub && $4 == false
+//@ after call crypto.DeriveSessionKey let c03key = $ret
+//@ at call SetSessionKey assert $0 == session && $1 == c03key && c03key != nil
+//@ ensures err == nil ==> result0 == c03pub && c03dhErr == nil
+//@ ensures err == nil ==> session.SessionKey != nil
+//@ ensures remoteEphemeralPub == zeros() ==> err != nil
+
+//@ func (*Handler).HandleICMPOpen
+//@ prop C03
+//@ modifies *
+//@ at call NewSession assert $1 == open.RequestID
+//@ after call NewSession let c03sess = $ret
+//@ at call performKeyExchange assert $1 == c03sess && $2 == open && $3 == remoteEphemeralPub
+//@ after call performKeyExchange let c03pub = $ret0
+//@ at call Lock#0 assert session == c03sess && session.SessionKey != nil
+//@ note the guard above is what C03 demands (no tunnel without a key; a zero initiator key is refused). It FAILS on the code: an ICMP_OPEN whose EphemeralPubKey is all zero skips the key exchange and the session is registered and acknowledged without any key (handler.go:139-150)
+//@ at call WriteICMPOpenAck assert $3.RequestID == old(open.RequestID)
+//@ at call WriteICMPOpenAck assert remoteEphemeralPub != zeros() ==> $3.EphemeralPubKey == c03pub
+
+//@ census[C03] crypto.DeriveSessionKey in (*Handler).performKeyExchange
+//@ census[C03] crypto.ComputeECDH in (*Handler).performKeyExchange
+//@ census[C03] (*Handler).performKeyExchange in (*Handler).HandleICMPOpen
+
+// ---- C04 (exit endpoint, ICMP): echo replies go to the mesh only sealed ----
+//
+// Session.Encrypt is the only producer of the Data field sent by waitForReply. What C04 demands of it: on
+// success the result is the output of SessionKey.Encrypt under the session's key for exactly the given
+// plaintext. The first clause FAILS on the code: without a session key the plaintext itself is returned
+// (session.go:212-214).
+
+//@ func (*Session).Encrypt
+//@ prop C04
+//@ modifies *
+//@ ensures err == nil ==> old(s.SessionKey) != nil
+//@ ensures err == nil && old(s.SessionKey) != nil ==> sealed(old(s.SessionKey).key, dirword(old(s.SessionKey).isInitiator), old(s.SessionKey.sendNonce), plaintext, result)
+//@ at call (*SessionKey).Encrypt assert $0 == s.SessionKey && $1 == plaintext
+
+//@ func (*Handler).waitForReply
+//@ prop C04
+//@ modifies *
+//@ at call (*Session).Encrypt assert $0 == session
+//@ after call (*Session).Encrypt let c04ct = $ret0
+//@ at call DataWriter.WriteICMPEcho assert $3.Data == c04ct && $3.IsReply && $1 == session.PeerID && $2 == session.StreamID
+
+//@ census[C04] DataWriter.WriteICMPEcho in (*Handler).waitForReply
+//@ census[C04] (*Session).Encrypt in (*Handler).waitForReply
